@@ -143,7 +143,22 @@ def _validation_only(f, n, parents):
                 if isinstance(b, ast.stmt):
                     return False
             return False
-        return bool(uses) and all(in_refusal_test(u) for u in uses)
+        if bool(uses) and all(in_refusal_test(u) for u in uses):
+            return True
+        # ... or the text of a message: a local whose every use is inside a `raise`
+        def in_raise(u):
+            b = u
+            while b in parents:
+                b = parents[b]
+                if isinstance(b, ast.Raise):
+                    return True
+                if isinstance(b, ast.stmt):
+                    return False
+            return False
+        if isinstance(a.value, (ast.JoinedStr, ast.BinOp, ast.Call)) and bool(uses) and all(in_raise(u) for u in uses) and \
+                (isinstance(a.value, ast.JoinedStr) or any(isinstance(x, ast.JoinedStr) or (isinstance(x, ast.Constant) and isinstance(x.value, str))
+                                                           for x in ast.walk(a.value))):
+            return True
     return False
 
 
@@ -218,7 +233,9 @@ def overlaps_taint(rep, idx):
             okuse += 1                                  # a read-only view of the configured limit: it decides nothing
         elif f.name in ("__repr__", "__str__") or any(isinstance(a_, (ast.JoinedStr, ast.Raise)) for a_ in _anc(parents, n)):
             okuse += 1                                  # shown in a message
-        elif any(isinstance(a_, ast.If) and a_.body and all(isinstance(s_, ast.Raise) for s_ in a_.body) and not a_.orelse and
+        elif any(isinstance(a_, ast.If) and a_.body and isinstance(a_.body[-1], ast.Raise) and not a_.orelse and
+                 all(isinstance(s_, ast.Raise) or (isinstance(s_, ast.Assign) and len(s_.targets) == 1 and isinstance(s_.targets[0], ast.Name) and
+                                                   isinstance(s_.value, (ast.JoinedStr, ast.Constant, ast.BinOp))) for s_ in a_.body) and
                  any(y is n for y in ast.walk(a_.test)) for a_ in _anc(parents, n)):
             okuse += 1                                  # read by the test of a refusal (`if <test>: raise`): it can only refuse
         elif _validation_only(f, n, parents):
